@@ -72,3 +72,22 @@ Definition bop_col (b : bop) : nat := match b with BOp c _ | BIn c _ | BNotIn c 
 Definition or_ranges (k : nat) (fs : list (list bop)) : list range :=
   flat_map (fun ops => mresult (mrun k ops)) fs.
 Definition or_true (fs : list (list bop)) (t : tuple) : bool := existsb (fun ops => conj_true ops t) fs.
+
+(* ---- the fast path for a lone IN filter on a one-column index (inValsToMySQLRangeColl, costed_index_scan.go) ----
+   Keys that are not integral or not inside the column type are skipped, the rest sorted and de-duplicated, one
+   closed point range each; when no key is left the function returns nil (None here), not the empty range. *)
+Definition in_fast_keys (ls : list lit) : list Z :=
+  flat_map (fun l => if lit_integral l then
+                       match conv (lit_floor l) with (z, InRange) => [z] | _ => [] end
+                     else []) ls.
+Fixpoint zinsert (x : Z) (l : list Z) : list Z :=
+  match l with
+  | [] => [x]
+  | y :: l' => if Z.ltb x y then x :: l else if Z.eqb x y then l else y :: zinsert x l'
+  end.
+Definition zsort_dedupe (l : list Z) : list Z := fold_right zinsert [] l.
+Definition in_fast (ls : list lit) : option (list range) :=
+  match zsort_dedupe (in_fast_keys ls) with
+  | [] => None
+  | ks => Some (map (fun z => [closed_rce z z]) ks)
+  end.
